@@ -1030,7 +1030,7 @@ MATCHERS = {}
 
 TIERS = {
     "quick": {"runs": 12000, "chunk": 100, "budget_s": 70},
-    "thorough": {"runs": 1500000, "chunk": 500, "budget_s": 900},
+    "thorough": {"runs": 250000, "chunk": 250, "budget_s": 1500},
 }
 PROBES = [
     "exception_rule_hit",
